@@ -14,6 +14,7 @@ LEVEL_NOTE = ("bounded: 10 hosts x 2 schemes x 5 ports (+ scheme-less and missin
 TECHNIQUE = "TLC function table replayed on the real code + TLC trace validation of random records"
 
 DEVNAMES = ["UnescapedDotInPattern", "WildcardIgnoresScheme", "OptionalSubdomain"]
+CODE_MASK = 4  # CodeDevs of CORS.tla: the deviations of the code as it is now
 
 
 def render_origin(o):
@@ -49,6 +50,11 @@ def deviation(l1table, obs):
     """names the smallest sets of layer-1 deviations under which the spec's code model gives the observed
     (statement-violating) outcome; 'none' if the code model never gives it (i.e. not a known shape)."""
     masks = [m for m in range(8) if l1table[m] == obs]
+    # deviations the current code is known to have (CodeDevs = {OptionalSubdomain}, mask 4) explain first: an outcome
+    # that the code's own deviation set produces is attributed to it, not to a deviation that was repaired
+    own = [m for m in masks if m & ~CODE_MASK == 0]
+    if own:
+        masks = own
     minimal = [m for m in masks if not any(o != m and (o & m) == o for o in masks)]
     if not minimal or 0 in minimal:
         return "none"
